@@ -1454,12 +1454,13 @@ func (r *repo) scanSourceMap(p *goPkg, fx *facts) {
 					e = ast.Unparen(c.Args[0])
 				}
 			}
-			if bl, ok := e.(*ast.BasicLit); ok && bl.Kind == token.STRING {
-				if v, err := strconv.Unquote(bl.Value); err == nil {
-					recorded[bl.Pos()] = true
-					add(n, v, true)
-					return
-				}
+			// a literal, a constant, or a concatenation: its constant value, or its
+			// leading constant part (`"//line " + name + ":1\n"` starts like
+			// `"//line %v:1\n"` does).  A concatenation whose first operand is not
+			// constant is unknown.
+			if v, _, ok := stringPrefix(e, p.info, recorded); ok {
+				add(n, v, true)
+				return
 			}
 			add(n, "unknown: "+r.text(n), false)
 		}
@@ -1748,11 +1749,16 @@ func (r *repo) scanScheduler(fx *facts) {
 	// dispatch guard: the select arm(s) that send, and the `if` that decides
 	// whether the channel sent on is nil.
 	sends := 0
+	written := r.fieldsWrittenIn("scheduler")
 	for _, d := range sf.ast.Decls {
 		fd, ok := d.(*ast.FuncDecl)
 		if !ok || fd.Body == nil {
 			continue
 		}
+		// hoisted locals (`c := s.concurrency`, never re-bound, field never written)
+		// are printed as the expression they stand for
+		hoists := stableHoists(written, fd, scanLocalDefs(fd))
+		condText := func(e ast.Expr) string { return r.text(substExpr(e, hoists)) }
 		// innermost enclosing block list for every select statement
 		var stack []ast.Node
 		ast.Inspect(fd.Body, func(n ast.Node) bool {
@@ -1797,10 +1803,10 @@ func (r *repo) scanScheduler(fx *facts) {
 						}
 						if assignsNil(is.Body, id.Name) {
 							found = true
-							fx.dispatchGuard = append(fx.dispatchGuard, "!("+r.text(is.Cond)+")")
+							fx.dispatchGuard = append(fx.dispatchGuard, "!("+condText(is.Cond)+")")
 						} else if eb, ok := is.Else.(*ast.BlockStmt); ok && assignsNil(eb, id.Name) {
 							found = true
-							fx.dispatchGuard = append(fx.dispatchGuard, r.text(is.Cond))
+							fx.dispatchGuard = append(fx.dispatchGuard, condText(is.Cond))
 						} else if is.Else != nil && mentions2(is.Else, id.Name) {
 							found = true
 							fx.dispatchGuard = append(fx.dispatchGuard, "unknown: "+r.text(is))
